@@ -8,7 +8,7 @@ def flt(scn, k, nmax, ty, npx=1, polls=3, envmax=12, timeout=1500, solver="cadic
              repo=[rc.RT + "frame_iterator.c", rc.RT + "throttler.c", rc.COMP], env=rc.ENV_UNIT + ["env/chan_contract.c"],
              defines=["SCN=%d" % scn, "K=%d" % k, "NMAX=%d" % nmax, "TYPE=%d" % ty, "NPX=%d" % npx, "POLL_MAX=%d" % polls, "ENV_MAX=%d" % envmax, "TAPE_BYTES=%d" % ((nmax + 1) * 104), "WRITE_UNIT=104",
                       "TAPE0_PX_T=float", "TAPE1_PX_T=%s" % ("uint8_t" if ty in (0, 2) else "uint16_t")],
-             cflags=rc.cflags(VERIF), unwind=nmax + 3, unwindset=dict([("min_consumed.0", 9), ("tape_at.0", 12), ("memcmp.0", 34)] +
+             cflags=rc.cflags(VERIF), unwind=nmax + 3, unwindset=dict([("min_consumed.0", 9), ("tape_at.0", 12), ("memcmp.0", 34), ("verif_memset_b.0", 4 * npx + 6), ("verif_memcpy_b.0", 4 * npx + 6)] +
                                              [("process_data.%d" % i, nmax + 2) for i in range(3)] + [("video_filter_thread.%d" % i, max(polls, nmax) + 3) for i in range(5)] +
                                              [("accumulate.%d" % i, npx + 2) for i in range(4)] + [("normalize.0", npx + 2)]),
              solver=solver, timeout=timeout, mem_gb=24,
@@ -41,6 +41,13 @@ def sched(scn, k, arrivals, stop_same=1, chunk=8, **kw):
     h.what += "; pixel values concrete and distinct per frame (powers of two), schedules symbolic"
     return h
 
+def shape_change(k, arrivals, at, chunk, npx=2):
+    h = sched(1, k, arrivals, 1, chunk, npx=npx)
+    h.defines.append("SHAPE_CHANGE_AT=%d" % at)
+    h.name = h.name.replace("filter_mean", "filter_shapechange%d" % at)
+    h.what = "the camera's shape changes at frame %d (same pixel count, transposed): every emitted frame is the exact mean of k consecutive frames of one shape, with the id of the first and that shape, ids increasing, no window mixes shapes; " % at + h.what
+    return h
+
 def compositions(n, parts):
     """all tuples of `parts` non-negative ints summing to n (first part >= 1)"""
     if parts == 1:
@@ -69,16 +76,16 @@ def harnesses(tier, findings):
     if tier == "quick":
         api = rc.inst(H, VERIF, 2, 2, 1, 0, 1)
         api.what = "hand-over at the end of an acquisition (sink told to stop only after the filter thread finished), whole-runtime coarse run: " + api.what
-        return [kern(2, 0), kern(2, 1), kern(2, 3)] + sched_family(2, (2, 3, 4), 2) + [sched(2, 2, (4,), 1, 1), sched(2, 2, (2, 1), 1, 8), sched(2, 2, (3,), 0, 8), api]
+        return [kern(2, 0), kern(2, 1), kern(2, 3)] + sched_family(2, (2, 3, 4), 2) + [sched(2, 2, (4,), 1, 1), sched(2, 2, (2, 1), 1, 8), sched(2, 2, (3,), 0, 8), api] + [shape_change(2, (5,), 1, 8), shape_change(2, (2, 3), 1, 1), shape_change(2, (5,), 3, 8)]
     # k=3 with i16 pixels did not reach a verdict in 50 min (kissat); it is left out and listed under 'outside'
     return [kern(2, ty, timeout=3000) for ty in (0, 1, 2, 3, 5, 6, 7)] + [kern(3, ty, timeout=3000) for ty in (0, 1, 2, 5, 6, 7)] + [kern(2, 1, npx=2, timeout=3000)] + \
            sched_family(2, (2, 3, 4, 5), 3) + sched_family(3, (3, 4, 6), 2) + \
-           [sched(2, 2, a, ss, c) for a in ((4,), (2, 2), (1, 3), (5,)) for ss in (0, 1) for c in (1, 8)]
+           [sched(2, 2, a, ss, c) for a in ((4,), (2, 2), (1, 3), (5,)) for ss in (0, 1) for c in (1, 8)] + [shape_change(2, a, at, c) for a in ((5,), (2, 3), (1, 4)) for at in (1, 2, 3) for c in (1, 8)]
 
 META = dict(
     level="model_checking",
     bounds=dict(quick="kernel: k=2, u8/u16/i16, all pixel values; schedules: every arrival pattern of N in {2,3,4} input frames over <=2 sleeps x stop with/after the last group x chunking {1 frame per map, everything}, sink timing symbolic, output ring one frame deep and pre-filled with arbitrary floats",
                 thorough="kernel: k in {2,3}, all 7 integer types, 2 pixels; schedules: N<=5 over <=3 sleeps, k=3"),
-    outside="k>3; the arithmetic kernel for k=3 with i16 pixels (no verdict in 50 min); more than 2 pixels per image; f32 input; shape changes inside a window; schedules needing more than POLL_MAX polls of the filter loop",
+    outside="k>3; the arithmetic kernel for k=3 with i16 pixels (no verdict in 50 min); more than 2 pixels per image; f32 input; what becomes of the window that is open when the camera's shape changes (only the frames emitted after and before it are constrained); schedules needing more than POLL_MAX polls of the filter loop",
     assumptions=["environment writer/sink are abstractions of the source and sink threads justified by the source/sink unit harnesses", "boundary scheduling (B)", "float arithmetic bit-blasted by CBMC (IEEE single)"],
 )
